@@ -14,6 +14,7 @@ import (
 	"encoding/json"
 	"fmt"
 	"os"
+	"runtime"
 
 	"github.com/protobom/protobom/pkg/sbom"
 	"github.com/protobom/protobom/pkg/storage"
@@ -32,6 +33,10 @@ func emit(o out) {
 }
 
 func main() {
+	// every system call of the store on one OS thread: strace's fault injection counts calls per
+	// thread, so "kill at the k-th call" walks through the store only if the store stays on the thread
+	// that is being counted
+	runtime.LockOSThread()
 	defer func() {
 		if r := recover(); r != nil {
 			emit(out{Outcome: "panic", Error: fmt.Sprint(r)})
